@@ -453,10 +453,20 @@ pub fn run(ctx: &mut Ctx) {
                 };
                 let mb = psetraw::write(&m);
                 let d = || json!({"bytes": hex_short(&mb), "mutation": how, "map": mi, "key_type": key0});
-                if let Some(Ok(p)) = call(ctx, "deserialize::<PartiallySignedTransaction>", mb.len(), &d, || deserialize::<Pset>(&mb)) {
+                let res = call(ctx, "deserialize::<PartiallySignedTransaction>", mb.len(), &d, || deserialize::<Pset>(&mb));
+                if mi == 0 && (key0 == 0x01 || key0 == 0xfc) {
+                    let outcome = match &res {
+                        Some(Ok(_)) => "accepted".to_string(),
+                        Some(Err(e)) => format!("{:?}", e).chars().take(70).collect(),
+                        None => "panic".to_string(),
+                    };
+                    ctx.seen("global_pair_value_mutation_outcomes", &format!("type{:#04x}/{}: {}", key0, how, outcome));
+                }
+                if let Some(Ok(p)) = res {
                     pset_accessors(ctx, &p, mb.len(), &d);
                 }
                 ctx.shape(("psetpair", how, key0, mi.min(3)));
+                ctx.count(&format!("pset-pair-mutations/{}/map{}/type{:#04x}", how, mi.min(3), key0));
             }
         });
     }
@@ -730,6 +740,44 @@ pub fn run(ctx: &mut Ctx) {
                 x2.global.xpub.insert(x, gp::key_source(&mut ctx.rng));
                 let d2 = || json!({"ks1": format!("{:?}", x1.global.xpub.get(&x)), "ks2": format!("{:?}", x2.global.xpub.get(&x))});
                 call(ctx, "Pset::merge[xpub-key-sources]", 100, &d2, || x1.clone().merge(x2.clone()).is_ok());
+            }
+            // 3b. blind_last on a PSET that passes the blinding checks but carries arbitrary scalars in
+            // its global map (zero, duplicates, random): an error or success, never a panic
+            if k % 3 == 0 {
+                let sc = crate::gen::blind::scenario(&mut ctx.rng, &crate::gen::blind::Dials { max_inputs: 3, max_assets: 2, issuances: false, ..Default::default() });
+                let (mut ps, parties) = super::c09::build(&mut ctx.rng, &sc, 1);
+                let what = match (k / 3) % 4 {
+                    0 => {
+                        ps.global.scalars.push(elements::secp256k1_zkp::ZERO_TWEAK);
+                        "zero-scalar"
+                    }
+                    1 => {
+                        let t = gen::tweak(&mut ctx.rng);
+                        ps.global.scalars.push(t);
+                        ps.global.scalars.push(t);
+                        "duplicate-scalars"
+                    }
+                    2 => {
+                        ps.global.scalars.push(elements::secp256k1_zkp::ZERO_TWEAK);
+                        ps.global.scalars.push(gen::tweak(&mut ctx.rng));
+                        "zero-and-random-scalar"
+                    }
+                    _ => {
+                        for _ in 0..3 {
+                            ps.global.scalars.push(gen::tweak(&mut ctx.rng));
+                        }
+                        "random-scalars"
+                    }
+                };
+                let secrets: std::collections::HashMap<usize, elements::TxOutSecrets> = parties.iter().flat_map(|p| p.inputs.iter()).map(|i| (*i, sc.spent_secrets[*i])).collect();
+                let seed: u64 = ctx.rng.gen();
+                let d = || json!({"case": what, "pset": hex_short(&serialize(&ps))});
+                call(ctx, &format!("Pset::blind_last[{}]", what), serialize(&ps).len(), &d, || {
+                    let mut q = ps.clone();
+                    let mut r = rand_chacha::ChaCha20Rng::seed_from_u64(seed);
+                    with_secp(|s| q.blind_last(&mut r, s, &secrets)).is_ok()
+                });
+                ctx.shape(("blind_last-scalars", what));
             }
             // 4. taproot sighash with out-of-range index / mismatched prevouts; builder and huffman
             {
